@@ -36,7 +36,7 @@ FIELD_WORD = {
     "mc": "M-constraint", "consts": "adjacency-const", "funcs": "function-name", "sinfo": "signal-info",
     "minfo": "method-port-info", "phs": "placeholder-set",
 }
-KIND_FIELDS = ("named", "calls", "adj", "conn", "sigs", "rdu", "wru")
+KIND_FIELDS = ("named", "calls", "adj", "conn", "sigs", "rdu", "wru", "mc")
 _SLICE = re.compile(r"\[\d+:\d+\]$")
 # _dsl container  ->  projected field (used to fold a reachability finding into the metadata finding
 # of the same container)
@@ -414,6 +414,13 @@ def classify(stale, missing, dup, kinds_new, kinds_fresh):
         if f in ("rdu", "wru"):  # who declared the constraint: the signal's own component or one above it
             host, sig = _strip(e[0]).split("::")[0], _strip(e[2])
             own = sig.startswith(host + ".") and "." not in sig[len(host) + 1:]
+            return None if own else "ancestor-block"
+        if f == "mc":            # M-U / U-M constraint: the same question for the method port
+            blk = [_strip(y).split("::")[0] for y in e[:2] if "::" in y]
+            mth = [_strip(y) for y in e[:2] if "::" not in y]
+            if not blk or not mth:
+                return None
+            own = mth[0].startswith(blk[0] + ".") and "." not in mth[0][len(blk[0]) + 1:]
             return None if own else "ancestor-block"
         if f == "named":
             x = e[0]
